@@ -48,6 +48,7 @@ fn bar_around(c: f64, rng: &mut Rng) -> Bar {
 pub fn soak(rep: &mut Report, p: &Params, regime: Regime, m: f64, steps: usize, seed: u64) {
     let mut g = BandGen::new(regime, m, seed);
     let mut brng = Rng::new(seed ^ 0xBA5);
+    let mut prev_bar: Option<Bar> = None;
     let mut inst = Inst::new(p);
     let mut rm = RefModel::new(p);
     let mut js: Judgements = Vec::with_capacity(4);
@@ -56,7 +57,18 @@ pub fn soak(rep: &mut Report, p: &Params, regime: Regime, m: f64, steps: usize, 
     for i in 0..steps {
         let t = i + 1;
         let c = g.next();
-        let x = if bars { In::B(bar_around(c, &mut brng)) } else { In::S(c) };
+        let x = if bars {
+            // ~3% exact repeats of the previous bar, in bursts: typical price unchanged (tie), which
+            // exercises the "no flow" slot handling of MFI and flat windows of CCI over a long run
+            let b = match prev_bar {
+                Some(pb) if brng.chance(0.03) || (t % 1500 < 40) => pb,
+                _ => bar_around(c, &mut brng),
+            };
+            prev_bar = Some(b);
+            In::B(b)
+        } else {
+            In::S(c)
+        };
         let sampled = t <= 3000 || t % 997 == 0 || t == steps;
         let r = rm.push_opt(&x, sampled);
         let out = match inst.feed(&x) {
@@ -92,7 +104,8 @@ pub fn soak(rep: &mut Report, p: &Params, regime: Regime, m: f64, steps: usize, 
                 // explicit witness for short prefixes
                 let mut g2 = BandGen::new(regime, m, seed);
                 let mut b2 = Rng::new(seed ^ 0xBA5);
-                let ins: Vec<In> = (0..t).map(|_| { let c = g2.next(); if bars { In::B(bar_around(c, &mut b2)) } else { In::S(c) } }).collect();
+                let mut pb2: Option<Bar> = None;
+                let ins: Vec<In> = (1..=t).map(|tt| { let c = g2.next(); if bars { let b = match pb2 { Some(pb) if b2.chance(0.03) || (tt % 1500 < 40) => pb, _ => bar_around(c, &mut b2) }; pb2 = Some(b); In::B(b) } else { In::S(c) } }).collect();
                 ops_json(&ins)
             } else {
                 json!({"soak": {"regime": regime.label(), "m": m, "seed": seed.to_string(), "step": t}})
